@@ -9,10 +9,13 @@ PHONES = ["1000001", "1000002", "1000003", "1000004"]
 MT = {None: 0, "image": 1, "location": 2, "contact": 3, "url": 4}
 KF_DUP_SKMSG = "group-dup-of-undecryptable-skmsg"
 KF_AXOLOTL_PAD = "python-axolotl-0.2.2-aligned-plaintext"
+KF_REORDER = "group-skmsg-older-than-first-processed-distribution"
 
 ASSUME = [
-    "PARTIAL: proved for every input sequence of one account (hence any number of accounts, any server schedule, any "
-    "fault placement): only ciphertext leaves the send layer, at most one entity per stanza, a replayed ciphertext is "
+    "PARTIAL: proved at world level (any number of accounts + honest server, any schedule, faults and restarts "
+    "anywhere): no account ever emits a plaintext stanza; an entity shown to r with id m belongs to the send step of m - r is an addressee, sender / group / type "
+    "/ content are that step's.  Proved for every input sequence of one account (hence any number of accounts, any "
+    "server schedule, any fault placement): only ciphertext leaves the send layer, at most one entity per stanza, a replayed ciphertext is "
     "never shown again and is re-acknowledged, a delivered entity carries the decrypted payload and the stanza's "
     "sender/group/id, a failed decryption yields exactly one retry receipt, a retry receipt yields exactly one directed "
     "re-encryption, sentQueue never exceeds 100.  NOT proved, checked by the simulator only (C03_complete_partial and "
@@ -24,7 +27,8 @@ ASSUME = [
     "tie model<->code: each script is run on 2-4 real stacks (control/send/receive axolotl layers, protocol layers, real "
     "python-axolotl, SQLite, protobuf) against the server double under an explicit schedule with <= 1 fault; every "
     "account's real inputs are abstracted and replayed through the extracted model; every stanza at the bottom and every "
-    "entity at the top, plus sessions / own sender-key iteration / sentQueue length, are compared after every input",
+    "entity at the top, plus the session lists, are compared after every input; the same action list is run through "
+    "the extracted WORLD model (accounts + server) and every application must see the same entities and receipts",
     "harness/worldsim.py: server double, recorder, DECLARED third-party shim: python-axolotl 0.2.2 pads the AES-CBC input "
     "only when unaligned; the simulator runs with always-pad (python-axolotl >= 0.2.3 behaviour); the un-shimmed "
     "behaviour is probed on every run and reported as an open known finding",
@@ -91,7 +95,7 @@ class Runner(object):
     def __init__(self, ctx, case):
         self.case = case
         n = case["n"]
-        self.w = ws.World(ctx.scratch, PHONES[:n], prekeys=case.get("prekeys", 16),
+        self.w = ws.World(ctx.scratch, PHONES[:n], prekeys=case.get("prekeys", 24),
                           pad_rng=random.Random(case.get("pad_seed", 1)))
         self.groups = []
         for k, members in enumerate(case.get("groups", [])):
@@ -461,10 +465,42 @@ def oracle(runner, rec, case):
             if len(delivered.get((r, mid), [])) >= 1 and not rcpts:
                 bad.append(("receipt_missing", "sender %d never saw the delivery receipt of %d for message %d" %
                             (s["from"], r, mid), None))
-    # --- retries: a corrupted ciphertext -> exactly one retry receipt with count 1, then one delivery
-    for f in faults:
-        if f[0] != "corrupt":
-            continue
+            if not faults and len(rcpts) > 1:
+                bad.append(("receipt_duplicated", "sender %d saw %d delivery receipts of %d for message %d in a "
+                            "fault-free run" % (s["from"], len(rcpts), r, mid), None))
+    # --- a stanza delivered twice by the server: second time a delivery receipt and nothing shown
+    for idx in range(n):
+        seen_stanzas = {}
+        evs = rec.events[idx]
+        for i, ev in enumerate(evs):
+            if ev["dir"] == "in" and ev["tag"] == "message" and ev["encs"] and \
+                    not any(t.get("corrupt") or t.get("unknown") for t in ev["encs"]):
+                sig = (ev["id"], ev["peer"], ev["group"],
+                       tuple((t["kind"], t.get("sid"), t.get("n"), t.get("sender")) for t in ev["encs"]))
+                outs = []
+                for o in evs[i + 1:]:
+                    if o["dir"] == "in":
+                        break
+                    outs.append(o)
+                if sig in seen_stanzas and seen_stanzas[sig]:
+                    acks = [o for o in outs if o["tag"] == "receipt" and o["rtype"] == "delivery"]
+                    shown = [o for o in outs if o["tag"] == "deliver"]
+                    if shown or len(acks) != 1:
+                        bad.append(("duplicate_not_reacknowledged", "account %d, second delivery of the stanza of "
+                                    "message %d: shown %d, delivery receipts %d" %
+                                    (idx, ev["id"], len(shown), len(acks)), None))
+                else:
+                    seen_stanzas[sig] = any(o["tag"] == "deliver" for o in outs)
+    # --- retries: the first retry receipt an account sends for an id carries count 1
+    for idx in range(n):
+        first = {}
+        for ev in rec.events[idx]:
+            if ev["dir"] == "out" and ev["tag"] == "receipt" and ev["rtype"] == "retry" and ev["id"] not in first:
+                first[ev["id"]] = ev["count"]
+                if ev["count"] != 1:
+                    bad.append(("retry_count", "account %d: first retry receipt for message %d has count %d" %
+                                (idx, ev["id"], ev["count"]), None))
+    # --- a corrupted ciphertext -> exactly one retry receipt with count 1, nothing shown
     for idx in range(n):
         for ev_i, ev in enumerate(rec.events[idx]):
             if ev["dir"] == "in" and ev["tag"] == "message" and any(t.get("corrupt") and not t.get("stale")
@@ -500,6 +536,20 @@ def bare_skmsg_retry_seen(rec, idx, mid):
 
 
 def lost_key(runner, rec, case, mid, r):
+    """message mid never shown to r although r handled an intact stanza of it carrying a sender-key ciphertext and
+    answered with a plain delivery receipt (the duplicate branch): the sender-key state r uses was created by a
+    LATER distribution message, because the server delivered this sender's group stanzas out of order."""
+    evs = rec.events[r]
+    for i, ev in enumerate(evs):
+        if ev["dir"] == "in" and ev["tag"] == "message" and ev["id"] == mid and \
+                any(t["kind"] == "skmsg" for t in ev["encs"]) and not any(t.get("corrupt") for t in ev["encs"]):
+            outs = []
+            for o in evs[i + 1:]:
+                if o["dir"] == "in":
+                    break
+                outs.append(o["tag"] + ":" + str(o.get("rtype")))
+            if outs == ["receipt:delivery"]:
+                return KF_REORDER
     return None
 
 
@@ -586,19 +636,104 @@ def expand_special(runner, act):
     return act
 
 
+def _modelled(d):
+    """queued deliveries the Coq world model has too (it has no acks and no key-upload answers)"""
+    return d.kind in ("message", "receipt") or (d.kind == "iq-result" and d.meta.get("req") in ("getkeys", "groupinfo"))
+
+
+def world_action(runner, act):
+    """the action of the Coq world model (C03WorldModel.waction) matching real action `act`, computed BEFORE it runs"""
+    w = runner.w
+    k = act[0]
+    if k in ("deliver", "dup", "corrupt"):
+        i = act[1]
+        if i >= len(w.pending) or not _modelled(w.pending[i]):
+            return None
+        j = sum(1 for d in w.pending[:i] if _modelled(d))
+        if k == "deliver":
+            return [1, j]
+        if w.pending[i].kind != "message":
+            return None
+        if k == "dup":
+            return [2, j]
+        encs = w.pending[i].node.getAllChildren("enc")
+        return [3, j, encs[act[2] % len(encs)]["type"] == "skmsg"]
+    if k == "restart":
+        return [4, act[1]]
+    return None
+
+
 def run_case(ctx, case):
+    """execute the action list; `drain` is expanded into explicit deliveries.  Returns the runner, the explicit
+    action list and the matching action list of the Coq world model."""
     r = Runner(ctx, case)
-    done = []
+    done, wacts = [], []
+
+    def one(a):
+        wa = world_action(r, a)
+        done.append(a)
+        r.do(a)
+        if a[0] == "send":
+            snd = r.sends[r.mid]
+            to = (1000 + int(a[2][1:])) if isinstance(a[2], str) else a[2]
+            wa = [0, a[1], [r.mid, to, snd["ty"], snd["mt"], r.mid]]
+        if wa is not None:
+            wacts.append(wa)
     try:
         for a in case["actions"]:
             a = expand_special(r, a)
-            done.append(a)
-            r.do(a)
-        if r.w.pending:
-            r.w.drain()
+            if a[0] == "drain":
+                n = 0
+                while r.w.pending and n < 5000:
+                    one(["deliver", 0])
+                    n += 1
+            else:
+                one(a)
+        n = 0
+        while r.w.pending and n < 5000:
+            one(["deliver", 0])
+            n += 1
     finally:
         r.w.close()
+    r.wacts = wacts
     return r, done
+
+
+def app_events_real(runner, rec, idx):
+    out = []
+    for ev in rec.events[idx]:
+        if ev["tag"] == "deliver":
+            isg = ev["group"] is not None
+            mt = MT.get(getattr(ev["obj"], "media_type", None), 9)
+            out.append([7, ev["group"] if isg else ev["peer"], opt(ev["peer"] if isg else None), ev["id"],
+                        0 if ev["type"] == "text" else 1, mt, opt(entity_content(runner, ev))])
+        elif ev["tag"] == "topreceipt":
+            isg = ev["group"] is not None
+            out.append([8, ev["group"] if isg else ev["peer"], opt(ev["peer"] if isg else None), ev["id"],
+                        int(ev["rtype"] == "retry")])
+    return out
+
+
+def compare_world(model, runner, rec, case):
+    """run the Coq WORLD model (accounts + server) on the same action list; every application must see the same
+    entities and receipts in the same order, and the server queue must drain in both"""
+    groups = [[1000 + k, list(m)] for k, m in enumerate(case.get("groups", []))]
+    res = model.call("run_world", [groups, list(range(case["n"])), runner.wacts])
+    if isinstance(res, tuple):
+        return ["world model error %r" % (res,)]
+    per = dict((i, []) for i in range(case["n"]))
+    for acct, outs in res[0]:
+        for o in outs:
+            if o[0] in (7, 8):
+                per.setdefault(acct, []).append(norm(o))
+    diffs = []
+    for idx in range(case["n"]):
+        real = norm(app_events_real(runner, rec, idx))
+        if real != per[idx]:
+            diffs.append("account %d application events:\n impl  %r\n world model %r" % (idx, real, per[idx]))
+    if res[1] != 0:
+        diffs.append("world model queue not drained: %d left" % res[1])
+    return diffs
 
 
 def check_case(ctx, model, case, stats, guard=True):
@@ -634,6 +769,10 @@ def check_case(ctx, model, case, stats, guard=True):
             for o in mo:
                 stats["outs"][o[0]] = stats["outs"].get(o[0], 0) + 1
             stats["ins"][ins[k][0]] = stats["ins"].get(ins[k][0], 0) + 1
+    if model is not None:
+        for d in compare_world(model, runner, rec, case):
+            found.append(("correspondence", "world-model", d, None))
+        stats["world_actions"] = stats.get("world_actions", 0) + len(runner.wacts)
     return case, found, runner
 
 
@@ -726,6 +865,7 @@ def run(ctx):
                                                 "retry", "error", "deliver", "receipt-to-app"][k], v)
                                               for k, v in sorted(stats["outs"].items()))
     ctx.coverage["faults_injected"] = nfaults
+    ctx.coverage["world_model_actions_replayed"] = stats.get("world_actions", 0)
     ctx.coverage["partial"] = "completeness and per-(recipient,id) exactly-once are simulator-checked only"
     ctx.coverage["exhaustive"] = False
     return ctx.finish(
